@@ -44,6 +44,7 @@ func main() {
 	outPath := fs.String("out", "-", "trace output")
 	statsPath := fs.String("stats", "", "stats json output")
 	thorough := fs.Bool("thorough", false, "wider generators")
+	fs.BoolVar(&codecChild, "nochild", false, "codec: do not spawn the cross-process check")
 	fs.IntVar(&startCase, "start", 0, "first case index to run")
 	fs.IntVar(&onlyCase, "only", -1, "run only this case index")
 	_ = fs.Parse(os.Args[2:])
@@ -68,6 +69,10 @@ func main() {
 		stats = runKeys(*seed, *n, *ops, out, *thorough)
 	case "sign":
 		stats = runSign(*seed, *n, out, *thorough)
+	case "fetch":
+		stats = runFetch(*seed, *n, out, *thorough)
+	case "codec":
+		stats = runCodec(*seed, *n, out, *thorough)
 	case "order":
 		stats = runOrder(*seed, *n, out, *thorough)
 	default:
